@@ -14,7 +14,7 @@ From V.c17 Require Import C17Spec C17Model C17TypedModel.
 From V.c18 Require C18Model.
 From V.c14 Require C14Spec C14Model.
 From V.c16 Require Import C16AuxModel C16AuxSeiProofs C16AuxExtractProofs C16AuxAacProofs C16AuxScanProofs C16AuxStreamProofs
-  C16SeiStrModel C16SeiStrProofs.
+  C16SeiStrModel C16SeiStrProofs C16SeiFswModel C16SeiFswProofs.
 
 (* ------------------------------------------------------------------ sei.ExtractSEIData *)
 (* every byte list: the Go-shaped run returns what the C17 model returns; never out of fuel;
@@ -295,3 +295,52 @@ Example ex_mdcv_payload :
   (* the slicing is partial: the same writes into a 23-byte buffer panic *)
   put_at (repeat 0 23) 20 4 [0; 0; 0; 0] = Panic.
 Proof. vm_compute. split; reflexivity. Qed.
+
+(* ------------------------------------------------------------------ Payload through bits.FixedSliceWriter
+   (C16SeiFswModel.v: sei136.go TimeCodeSEI.Payload, sei1_avc.go PicTimingAvcSEI.Payload).  The writer is the Go
+   struct {buf, off, n, v, accError}; make / buf[off] = b / buf[:off] are PARTIAL operations, the `for sw.n >= 8`
+   loop runs on fuel.  For EVERY capacity >= 0 and EVERY sequence of WriteBits / WriteFlag / FlushBits calls
+   (any value, any width: 256-bit writes included) the run ends without Panic and without running out of fuel and
+   returns at most `capacity` bytes; the second component is accError, which the Payload methods never look at. *)
+Theorem C16_bits_FixedSliceWriter_total : forall (cap : Z) (ops : list wop), (0 <= cap)%Z ->
+  exists bs e, fsw_payload_p cap ops = Ok (bs, e) /\ (lenZ bs <= cap)%Z.
+Proof. exact fsw_payload_total. Qed.
+Print Assumptions C16_bits_FixedSliceWriter_total.
+
+(* EVERY message value (any number of clocks, every field any number: the Go fields are bytes / uint16 / uint32):
+   Payload() returns at most Size() bytes, and Size() is linear in the number of clocks and the length fields *)
+Theorem C16_sei_TimeCodeSEI_Payload_total : forall cs : list clock,
+  exists bs e, tc_payload_p cs = Ok (bs, e) /\ lenN bs <= tc_size cs /\
+               8 * tc_size cs <= 9 + 44 * lenN cs + sumN (map c_tolen cs).
+Proof. exact tc_payload_total. Qed.
+Print Assumptions C16_sei_TimeCodeSEI_Payload_total.
+
+Theorem C16_sei_PicTimingAvcSEI_Payload_total : forall m : pic_timing,
+  exists bs e, pt_payload_p m = Ok (bs, e) /\ lenN bs <= pt_size m /\
+               8 * pt_size m <= hrd_bits (p_hrd m) + 11 + 40 * lenN (p_clocks m) + sumN (map a_tolen (p_clocks m)).
+Proof. exact pt_payload_total. Qed.
+Print Assumptions C16_sei_PicTimingAvcSEI_Payload_total.
+
+(* every payload (and every external parameter): decode, then Payload() of the decoded message *)
+Theorem C16_sei_TimeCode_decode_then_Payload_total : forall payload : list N,
+  tc_decode_payload_p payload = Err \/
+  exists k bs e, tc_decode_payload_p payload = Ok (k, bs, e) /\ k <= 3.
+Proof. exact tc_decode_payload_total. Qed.
+Print Assumptions C16_sei_TimeCode_decode_then_Payload_total.
+
+Theorem C16_sei_PicTimingAvc_decode_then_Payload_total :
+  forall (ext : option hrd_delay) (tolen : N) (payload : list N),
+  pt_decode_payload_p ext tolen payload = Err \/
+  exists k bs e, pt_decode_payload_p ext tolen payload = Ok (k, bs, e) /\ 1 <= k <= 3.
+Proof. exact pt_decode_payload_total. Qed.
+Print Assumptions C16_sei_PicTimingAvc_decode_then_Payload_total.
+
+(* the buffer operations are partial: the same byte written at off = len(buf) panics without WriteUint8's check;
+   a 256-bit and a 255-bit field in a picture timing value (length fields 255 / 254): 65 bytes, no error;
+   a time code whose bits end on a byte boundary: the final 1 bit finds the buffer full (accError, no panic) *)
+Example ex_fsw_partial :
+  pupd [0; 0] 2 7 = Panic /\ fsw_new (-1) = Panic /\
+  (exists bs, pt_payload_p (mkPT (Some (mkHrd 5 6 0 255 254)) 0 3 [clock_avc_zero 255]) = Ok (bs, false) /\ lenN bs = 65) /\
+  tc_payload_p [mkClock true false 0 false false false 0 false 0 false 0 false 0 5 1] = Ok ([96; 0; 0; 161], true) /\
+  tc_decode_payload_p [96; 64; 65; 152; 180; 16] = Ok (1, [96; 64; 65; 152; 180; 16], false).
+Proof. vm_compute. repeat split. eexists; split; reflexivity. Qed.
